@@ -408,7 +408,7 @@ def c03(tr, acc, case):
             between = [b for b in bs if b["step"] == "cruncher" and b["t0"] > due + 1e-9 and b["n0"] < n1]
             if any(b["step"] == "cruncher" and b["t0"] > due + 1e-9 for b in bs):
                 acc.hit("retry_due_while_steps_never_await")
-                if len(between) > 2:
+                if len(between) > 2 * int(meta.get("nw", 1)) + 1:
                     acc.violation({"mech": "due_retry_starved_by_steps_that_never_await"},
                                   f"retry of flaky was due at vt={due}; the control loop then started {len(between)} more cruncher bodies (vt {between[0]['t0']} .. {between[-1]['t0']}) "
                                   f"before the retry {'started at vt=' + str(f1[0]['t0']) if f1 else 'never started'}", case)
